@@ -36,6 +36,7 @@ def impl_inputs(B, case):
 def rockit_side(args):
     """worker: build the case on the real rockit, observe the NLP at the points"""
     case, points, extra = args
+    extras_fn, extra_fn = extra if extra else (None, None)
     from .common import setup_rockit_path
     rockit = setup_rockit_path()
     from . import nlp
@@ -45,7 +46,7 @@ def rockit_side(args):
         buf = io.StringIO()
         with contextlib.redirect_stdout(buf):
             B = CS.build_rockit(case, rockit)
-            ob = nlp.observe(B, case)
+            ob = nlp.observe(B, case, extras_fn)
             out["inputs"] = impl_inputs(B, case)
             targets = [nlp.flatten_point(ob, pt) for pt in points]
             objs, rows = nlp.rockit_rows(ob, targets)
@@ -53,8 +54,8 @@ def rockit_side(args):
             out["rows"] = [(s, list(map(float, hs))) for s, key, hs in rows]
             out["nx_opti"] = ob.nx
             out["ng"] = int(ob.opti.g.numel())
-            if extra:
-                out["extra"] = extra(B, case, ob, points, targets)
+            if extra_fn:
+                out["extra"] = extra_fn(B, case, ob, points, targets)
     except nlp.Mismatch as e:
         out["mismatch"] = str(e)
     except Exception as e:
@@ -167,4 +168,35 @@ def compare_case(case, mvals, rres, judge_kinds=None, judge_obj=True):
             for rs, rhs in ur:
                 dis.append({"what": "rockit row has no counterpart in the model",
                             "sense": "eq" if rs == 0 else "le", "rockit_values": rhs})
+    return dis
+
+
+def extras_Xs(B, case):
+    """read-back expressions evaluated with the NLP: sample(x, grid='control')"""
+    return [B.ocp.sample(B.ocp.x, grid="control")[1]]
+
+
+def extra_Xs(B, case, ob, points, targets):
+    """sample(x, grid='control') evaluated at every semantic point (list of columns)"""
+    from . import nlp
+    out = []
+    for t in targets:
+        xs = nlp.solve_point(ob, t)
+        v = np.array(ob.extra_f(xs, ob.pval))
+        out.append([[float(v[r, c]) for r in range(v.shape[0])] for c in range(v.shape[1])])
+    return {"Xs": out}
+
+
+def compare_Xs(mXs, rXs):
+    """model node states vs rockit's sample(x,'control') at each point"""
+    dis = []
+    for p, (a, b) in enumerate(zip(mXs, rXs)):
+        if len(a) != len(b):
+            return [{"what": "number of sampled nodes differs", "model": len(a), "rockit": len(b)}]
+        for k, (ca_, cb) in enumerate(zip(a, b)):
+            mag = max([abs(v) for v in ca_] + [0.0])
+            if len(ca_) != len(cb) or not all(close(y, x, scale=mag) for x, y in zip(ca_, cb)):
+                dis.append({"what": "sampled state differs from the propagated state",
+                            "point": p, "node": k, "model": ca_, "rockit": cb})
+                return dis
     return dis
